@@ -53,3 +53,20 @@ package kgo
 //@   site call SetVersion#0 assert [not-below-user-min] reached($LookupMaxKeyVersion1_0) ==> arg0 >= $LookupMaxKeyVersion1_0
 //   No request is written without having gone through the clamp on the same path.
 //@   site call writeRequest#0 assert [clamped-before-write] reached($SetVersion0)
+
+// The connection-opening ApiVersions request is written outside handleReq, by requestAPIVersions. The version it
+// is written with (every iteration of the downgrade loop at `start:`) is never negative, never above the user's
+// MaxVersions entry for ApiVersions when one is configured (first two tries), 0 on the third try, and otherwise
+// at most 4; a broker-driven downgrade only ever lowers it. The broker's advertised ranges are stored unchanged.
+//@ func (cxn *brokerCxn) requestAPIVersions(tries int) (err error)
+//@   prop C21
+//@   loop 0 invariant [non-negative] 0 <= maxVersion
+//@   loop 0 invariant [third-try] tries >= 3 ==> maxVersion == 0
+//@   loop 0 invariant [user-max] ($LookupMaxKeyVersion0_1 && $LookupMaxKeyVersion0_0 >= 0) ==> maxVersion <= $LookupMaxKeyVersion0_0
+//@   loop 0 invariant [client-max] !($LookupMaxKeyVersion0_1 && $LookupMaxKeyVersion0_0 >= 0) ==> maxVersion <= 4
+//@   site store Version#0 assert [api-versions-non-negative] 0 <= val
+//@   site store Version#0 assert [api-versions-third-try-v0] tries >= 3 ==> val == 0
+//@   site store Version#0 assert [api-versions-at-most-user-max] ($LookupMaxKeyVersion0_1 && $LookupMaxKeyVersion0_0 >= 0) ==> val <= $LookupMaxKeyVersion0_0
+//@   site store Version#0 assert [api-versions-at-most-client-max] !($LookupMaxKeyVersion0_1 && $LookupMaxKeyVersion0_0 >= 0) ==> val <= 4
+//@   site mapupdate int16#0 assert [stores-broker-max] val == key.MaxVersion && mapkey == key.ApiKey
+//@   site mapupdate int16#1 assert [stores-broker-min] val == key.MinVersion && mapkey == key.ApiKey
